@@ -759,6 +759,11 @@ func (c *Cluster) QueryLeader(leader int, sql string, includeMemStore bool) (*db
 	deadline := time.Now().Add(c.Timeout)
 	for {
 		res, err := dbdrv.QueryZ(c.Leaders[leader].Z, context.Background(), sql, includeMemStore, nil)
+		if err != nil && strings.Contains(err.Error(), "missing partitions") && !time.Now().After(deadline) {
+			// an IN-subquery that did not hear from every partition (same availability matter, reported as an error)
+			time.Sleep(500 * time.Microsecond)
+			continue
+		}
 		if err != nil || res == nil || res.Stats == nil || res.Stats.NumSuccessfulPartitions >= res.Stats.NumPartitions || time.Now().After(deadline) {
 			return res, err
 		}
